@@ -1,22 +1,28 @@
-// Environment stand-ins for unit `flag` (crates/supervisor/src/flag.rs). TRUSTED BASE.
+// Environment stand-ins for unit `flag` (crates/supervisor/src/flag.rs, Ticket::poll in job/messages.rs). TRUSTED BASE.
 // Flag::poll and Flag::raise are each treated as ATOMIC (no interleaving inside one call): the register-then-recheck race argument
 // and the memory orderings are NOT verified.
 pub struct FEnv {
-    pub set: Ghost<bool>,                // value of Inner.set
-    pub registered: Ghost<Seq<int>>,     // tasks whose wakers are in the mutex-protected list (in registration order)
-    pub woken: Ghost<Set<int>>,          // tasks that have been woken
+    pub set: Ghost<Map<int, bool>>,                // per flag (identity of the shared Inner): value of Inner.set
+    pub registered: Ghost<Map<int, Seq<int>>>,     // per flag: tasks whose wakers are in the mutex-protected list (registration order)
+    pub woken: Ghost<Set<int>>,                    // tasks that have been woken
 }
 pub open spec fn reg_contains(s: Seq<int>, t: int) -> bool { exists|i: int| 0 <= i < s.len() && #[trigger] s[i] == t }
+pub open spec fn known(env: &FEnv, f: int) -> bool { env.set@.contains_key(f) && env.registered@.contains_key(f) }
+pub open spec fn others_same(a: &FEnv, b: &FEnv, f: int) -> bool {
+    forall|g: int| g != f ==> (#[trigger] a.set@.contains_key(g) == b.set@.contains_key(g)) && (a.registered@.contains_key(g) == b.registered@.contains_key(g))
+        && (a.set@.contains_key(g) ==> a.set@[g] == b.set@[g]) && (a.registered@.contains_key(g) ==> a.registered@[g] == b.registered@[g])
+}
 
 pub struct Ordering;
 pub fn Relaxed() -> Ordering { Ordering }
-pub struct AtomicBool;
+pub struct AtomicBool { pub id: int }
 impl AtomicBool {
     #[verifier::external_body]
-    pub fn load(&self, o: Ordering, env: &mut FEnv) -> (r: bool) ensures r == old(env).set@, *final(env) == *old(env) { unimplemented!() }
+    pub fn load(&self, o: Ordering, env: &mut FEnv) -> (r: bool) requires known(old(env), self.id) ensures r == old(env).set@[self.id], *final(env) == *old(env) { unimplemented!() }
     #[verifier::external_body]
     pub fn store(&self, v: bool, o: Ordering, env: &mut FEnv)
-        ensures final(env).set@ == v, final(env).registered == old(env).registered, final(env).woken == old(env).woken { unimplemented!() }
+        requires known(old(env), self.id)
+        ensures final(env).set@ == old(env).set@.insert(self.id, v), final(env).registered == old(env).registered, final(env).woken == old(env).woken { unimplemented!() }
 }
 // std::task::Waker / Context: a waker belongs to one task
 pub struct Waker { pub task: int }
@@ -38,37 +44,42 @@ impl Context {
     pub fn waker(&self) -> (r: &Waker) ensures r.task == self.task { unimplemented!() }
 }
 // Mutex<Vec<Waker>>: lock() gives exclusive access to the list; the guard's operations act on the protected list
-pub struct WakerMutex;
-pub struct WakerGuard;
+pub struct WakerMutex { pub id: int }
+pub struct WakerGuard { pub id: int }
 impl WakerMutex {
     // `.lock().expect(..)`: poisoning (a panic while the lock is held) is not modelled
     #[verifier::external_body]
-    pub fn vx_lock(&self, env: &mut FEnv) -> (r: WakerGuard) ensures *final(env) == *old(env) { unimplemented!() }
+    pub fn vx_lock(&self, env: &mut FEnv) -> (r: WakerGuard) ensures r.id == self.id, *final(env) == *old(env) { unimplemented!() }
 }
 impl WakerGuard {
     // `guard.iter().any(|w| c(w))` with c's ghost twin p
     #[verifier::external_body]
     pub fn vx_iter_any<F: Fn(&Waker) -> bool>(&self, c: F, Ghost(p): Ghost<spec_fn(int) -> bool>, env: &mut FEnv) -> (r: bool)
-        requires forall|w: Waker| c.requires((&w,)), forall|w: Waker, b: bool| c.ensures((&w,), b) && b ==> p(w.task),
-        ensures *final(env) == *old(env), r ==> exists|i: int| 0 <= i < old(env).registered@.len() && p(#[trigger] old(env).registered@[i]),
+        requires known(old(env), self.id), forall|w: Waker| c.requires((&w,)), forall|w: Waker, b: bool| c.ensures((&w,), b) && b ==> p(w.task),
+        ensures *final(env) == *old(env), r ==> exists|i: int| 0 <= i < old(env).registered@[self.id].len() && p(#[trigger] old(env).registered@[self.id][i]),
     { unimplemented!() }
     #[verifier::external_body]
     pub fn push_raw(&mut self, w: Waker, env: &mut FEnv)
-        ensures final(env).registered@ == old(env).registered@.push(w.task), final(env).set == old(env).set, final(env).woken == old(env).woken { unimplemented!() }
+        requires known(old(env), old(self).id)
+        ensures final(self).id == old(self).id, final(env).registered@ == old(env).registered@.insert(old(self).id, old(env).registered@[old(self).id].push(w.task)),
+            final(env).set == old(env).set, final(env).woken == old(env).woken { unimplemented!() }
     // proved wrapper: membership facts about the pushed list (verified, not assumed)
     pub fn push(&mut self, w: Waker, env: &mut FEnv)
-        ensures final(env).registered@ == old(env).registered@.push(w.task), final(env).set == old(env).set, final(env).woken == old(env).woken,
-            reg_contains(final(env).registered@, w.task),
-            forall|t: int| reg_contains(old(env).registered@, t) ==> reg_contains(final(env).registered@, t),
+        requires known(old(env), old(self).id)
+        ensures final(self).id == old(self).id, known(final(env), old(self).id), final(env).set == old(env).set, final(env).woken == old(env).woken,
+            final(env).registered@ == old(env).registered@.insert(old(self).id, old(env).registered@[old(self).id].push(w.task)),
+            reg_contains(final(env).registered@[old(self).id], w.task),
+            forall|t: int| reg_contains(old(env).registered@[old(self).id], t) ==> reg_contains(final(env).registered@[old(self).id], t),
     {
-        let ghost pre = env.registered@;
+        let ghost pre = env.registered@[self.id];
         let ghost wt = w.task;
         self.push_raw(w, env);
         proof {
-            assert(env.registered@[pre.len() as int] == wt);
-            assert forall|t: int| reg_contains(pre, t) implies reg_contains(env.registered@, t) by {
+            let post = env.registered@[self.id];
+            assert(post[pre.len() as int] == wt);
+            assert forall|t: int| reg_contains(pre, t) implies reg_contains(post, t) by {
                 let i = choose|i: int| 0 <= i < pre.len() && pre[i] == t;
-                assert(env.registered@[i] == t);
+                assert(post[i] == t);
             }
         }
     }
@@ -76,7 +87,9 @@ impl WakerGuard {
 // `std::mem::take(&mut *guard)`: the whole list is moved out, the protected list is left empty
 #[verifier::external_body]
 pub fn vx_take_guard(g: WakerGuard, env: &mut FEnv) -> (r: Vec<Waker>)
-    ensures r@.len() == old(env).registered@.len(), forall|i: int| #![trigger r@[i]] #![trigger old(env).registered@[i]] 0 <= i < r@.len() ==> r@[i].task == old(env).registered@[i],
-        final(env).registered@.len() == 0, final(env).set == old(env).set, final(env).woken == old(env).woken,
+    requires known(old(env), g.id)
+    ensures r@.len() == old(env).registered@[g.id].len(),
+        forall|i: int| #![trigger r@[i]] #![trigger old(env).registered@[g.id][i]] 0 <= i < r@.len() ==> r@[i].task == old(env).registered@[g.id][i],
+        final(env).registered@ == old(env).registered@.insert(g.id, Seq::<int>::empty()), final(env).set == old(env).set, final(env).woken == old(env).woken,
 { unimplemented!() }
 pub enum Poll<T> { Ready(T), Pending }
